@@ -12,6 +12,7 @@ CONSTANTS
   Weights = {}
   MaxOps = 0
   Emit = FALSE
+  ReprOf <- ReprId
 INVARIANTS Disruption
 VIEW View
 CHECK_DEADLOCK FALSE
